@@ -24,6 +24,12 @@ type wrapErr struct {
 func (w wrapErr) Error() string { return w.msg + ": " + w.err.Error() }
 func (w wrapErr) Unwrap() error { return w.err }
 
+// isE1Err matches E1 through an Is method only.
+type isE1Err struct{}
+
+func (isE1Err) Error() string        { return "isE1Err" }
+func (isE1Err) Is(target error) bool { return target == E1 }
+
 type outcome struct {
 	name string
 	v    int
@@ -40,6 +46,8 @@ func c12Outcomes() []outcome {
 		{"join(E2,&PtrErr)", errors.Join(E2, &PtrErr{3})}, {"wrap(join(E2,ValErr))", fmt.Errorf("outer: %w", errors.Join(E2, ValErr{4}))},
 		{"join(wrap(join(E3,E1)))", errors.Join(fmt.Errorf("x: %w", errors.Join(E3, E1)))}, {"E2", E2}, {"E3", E3},
 		{"wrap(wrap(E3))", fmt.Errorf("a: %w", fmt.Errorf("b: %w", E3))}, {"E4", E4}, {"OtherErr", OtherErr{}},
+		// an error that is E1 only by its own Is method (like *PathError for fs.ErrNotExist): bare, wrapped, joined
+		{"IsE1", isE1Err{}}, {"wrap(IsE1)", fmt.Errorf("w: %w", isE1Err{})}, {"wrap(join(E2,wrap(IsE1)))", fmt.Errorf("o: %w", errors.Join(E2, wrapErr{"i", isE1Err{}}))},
 	}
 	var out []outcome
 	for _, v := range []int{0, 1} {
@@ -445,7 +453,7 @@ func init() {
 	register(&CheckDef{
 		Property:  "C12",
 		Technique: "exhaustive enumeration of the condition/outcome truth table, each cell executed on the real policies (fallback, retry, breaker, hedge) under the virtual runtime and compared with the documented rules",
-		Rule: "a case = an ordered subset of {HandleErrors, HandleErrorTypes, HandleResult, HandleIf} (all 65, three kinds of type target, single and multi-argument registrations) x an outcome from {0,1} x 16 error shapes (nil, sentinel, wrapped, joined, typed by value and by pointer, nested wrap/join, unrelated); " +
+		Rule: "a case = an ordered subset of {HandleErrors, HandleErrorTypes, HandleResult, HandleIf} (all 65, three kinds of type target, single and multi-argument registrations) x an outcome from {0,1} x 19 error shapes (nil, sentinel, wrapped, joined, typed by value and by pointer, nested wrap/join, matching only through an Is method at three depths, unrelated); " +
 			"the same registrations are exercised as AbortOn* and CancelOn*; histories: every ordered pair of 18 outcomes classified one after the other by the same policy instances (65 subsets x 3 type targets); result conditions on eight result types (pointers, structs/arrays/interfaces holding pointers, slices, maps) with deep-equal but not identical values; observed only through the public API; distinct = distinct cases",
 		Assume: []string{"errors.Is / errors.As / reflect.DeepEqual are the reference matchers", "a result condition on an outcome that carries an error: HandleResult must not match (documented); AbortOnResult / CancelOnResult: either reading accepted (not documented)"},
 		Units:  c12Units,
